@@ -7,10 +7,16 @@
   * "syntactically compatible with QML/JS … semantics diverged": the listed divergences are typing ones (no implicit
     conversion, integer ≠ floating point, integer division returns an integer).  Everything the document is silent
     about is read as JavaScript: evaluation order (callee object before arguments, left-hand side before right-hand
-    side), block scoping of let/const (a `switch` body is ONE block), completion values of statement lists
+    side), block scoping of let/const, completion values of statement lists
     (ECMA-262 §14: the value of the last value-producing statement; `if`/`switch` produce `undefined` = void when
     nothing in them does; declarations produce nothing), `switch` testing the selectors in source order with `==`,
     falling through, `default` anywhere, `break` leaving the innermost switch.
+  * STATED DEVIATION FROM ECMAScript (the language after the repair 0aff63c of /repo): the statement list of EACH
+    `switch` clause is a scope of its own — a `let`/`const` declared in a clause ends with that clause: it is visible
+    neither after the switch nor in a later clause, also not when control falls through into it (a later clause that
+    uses the name refers to an outer variable of that name, if there is one).  In ECMAScript the whole case block is
+    one scope (and a clause entered by the jump would find the binding uninitialised: TDZ); a language whose
+    declarations must be initialised where they are introduced cannot offer that, so the clause is the scope.
   * Types: `int` is a 32-bit signed integer — an operation whose mathematical result is not representable is
     UNDEFINED (the property excludes it); `uint` is arithmetic modulo 2^32; `double` is IEEE binary64 (primitives are
     a parameter); integer literals and constant expressions over them are *untyped integers* (`cint`, mathematical,
@@ -754,7 +760,7 @@ def execStmt (c : Ctx) : Stmt → St → Option (Outcome × St)
     (match evalExpr c value s with
      | none => none
      | some (disc, s) =>
-       -- the case block is one scope
+       -- every clause is a scope of its own (`runClauses`); nothing declared in the switch outlives it
        let outer := s.vars.length
        match selectClause c disc clauses 0 s with
        | none => none
@@ -805,16 +811,17 @@ def selectClause (c : Ctx) (disc : Val) : List (Option Expr × List Stmt) → Na
 termination_by cl => (sizeOf cl, 0)
 decreasing_by all_goals simp_wf; all_goals (try omega)
 
-/-- the bodies from the selected clause on, falling through -/
+/-- the bodies from the selected clause on, falling through; the statement list of a clause is a scope of its own
+    (what it declares ends with it — also when control falls through into the next clause) -/
 def runClauses (c : Ctx) : List (Option Expr × List Stmt) → Nat → Option Val → St → Option (Outcome × St)
   | [], _, v, s => some (.normal v, s)
   | _ :: rest, skip + 1, v, s => runClauses c rest skip v s
   | (_, body) :: rest, 0, v, s =>
     match execStmts c body s with
     | none => none
-    | some (.normal v', s) => runClauses c rest 0 (updateEmpty v' v) s
-    | some (.brk v', s) => some (.brk (updateEmpty v' v), s)
-    | some (o, s) => some (o, s)
+    | some (.normal v', s') => runClauses c rest 0 (updateEmpty v' v) (s'.leave s.vars.length)
+    | some (.brk v', s') => some (.brk (updateEmpty v' v), s'.leave s.vars.length)
+    | some (o, s') => some (o, s'.leave s.vars.length)
 termination_by cl => (sizeOf cl, 1)
 decreasing_by all_goals simp_wf; all_goals (try omega)
 
